@@ -27,6 +27,10 @@ claimed = {
    text="Seeded schedule search over the file operations of 2-3 simulated processes x 1-2 goroutines doing Put/GetBytes/GetFile on one directory (identical and differing contents per id, a sequential prefix, hot-id bias), page-granular torn reads/writes, random/sticky/pct/preemption-bounded schedules. Oracle over the recorded history: every successful lookup returns hash- and size-valid bytes that some Put stored for that id; a lookup overlapped only by Puts of the content the id stably holds must hit and return it; files named by GetFile keep their bytes for a slow consumer; after quiescence every stored id is readable. Sampling, not enumeration.",
    note="Sub-page single read/write calls are atomic in the model; no faults here (C12). Processes are task groups with private *Cache and descriptors in one OS process; the kernel file system is real.",
    tech="deterministic simulation: seeded scheduler over intercepted file operations of several simulated processes, history oracle"),
+ "C06": dict(cat="exploration", ref="3 (C06)",
+   text="Seeded schedule search over every open/flock/unlock/close/content operation of up to 6 goroutines in 1-3 simulated processes using every lockedfile entry point (all OpenFile flag combinations, Open, Create, Edit, Mutex, Read, Write, Transform) on regular and FIFO lock files, with EINTR storms, ENOLCK, failing truncate and failing close injected. Oracles: behavioural holder table (a writer never coexists with anyone), kernel-side truth (the returned descriptor holds the prescribed flock mode from return until Close is called and not after), content operations only under the right lock, failed opens leave no descriptor, no deadlock / bounded progress.",
+   note="The kernel's real flock (LOCK_NB) is the arbiter; flock conflicts are per open file description, so simulated processes = task groups with private descriptors. Workload never nests locks.",
+   tech="deterministic simulation with fault injection: seeded scheduler over intercepted open/flock/close, real kernel flock, holder-table + kernel-side lock-table invariants"),
 }
 na = {
  "C02": "pure function of the line text and the assignment history: no schedule, clock, fault or second party for a simulator to own",
